@@ -8,7 +8,8 @@
 //   variant (handle life cycle): '' use+destroy | k unlock()+destroy | m move-construct | a move-assign both ways
 //   whole : ld load | st=v store | as=v operator= | cv operator T | md modify | rd read | xc=v exchange | ce=e/d compare_exchange
 //   !k    : the k-th user-code invocation inside the op throws (fault injection)
-// markers: call/ret/exc <op>; acq <X|S> <b|t|f|u>; got <slot> <0|1>; hd/hu/hmc/hma <slots>; he [<bool>]
+// markers: call/ret/exc <op>; acq <X|S> <b|t|f|u>; got <slot> <0|1>; hd/hu/hmc/hma <slots>; he [<bool>];
+//          hfree = by the handle semantics of C01/C08 no handle of this thread owns the lock at this point
 #include "gmlc/libguarded/atomic_guarded.hpp"
 #include "gmlc/libguarded/guarded.hpp"
 #include "gmlc/libguarded/guarded_opt.hpp"
@@ -72,6 +73,7 @@ void session(AcqFn acquire, bool exclusive, char variant)
         verif::emit("hu a");
         a->unlock();
         verif::emit(std::string("he ") + (static_cast<bool>(*a) ? "1" : "0"));
+        verif::emit("hfree");  // per C08 nothing owns the lock after unlock()
     } else if (variant == 'm') {
         verif::emit("hmc a b");
         b.emplace(std::move(*a));
@@ -83,6 +85,7 @@ void session(AcqFn acquire, bool exclusive, char variant)
         verif::emit("hd b");
         b.reset();
         verif::emit("he");
+        verif::emit("hfree");  // the only owner (b) is gone
     } else if (variant == 'a') {
         verif::emit("hmc a b");
         b.emplace(std::move(*a));  // b owns, a is a husk
@@ -94,6 +97,7 @@ void session(AcqFn acquire, bool exclusive, char variant)
         verif::emit("hma b a");
         *a = std::move(*b);  // husk onto owning: a releases the lock
         verif::emit("he");
+        verif::emit("hfree");  // a's ownership ended at the assignment, b was moved from: nobody owns the lock
         verif::emit("hd b");
         b.reset();
         verif::emit("he");
@@ -105,6 +109,8 @@ void session(AcqFn acquire, bool exclusive, char variant)
         a.reset();
         verif::emit("he");
     }
+    // spec-level ownership (C01/C08): every handle of this session has been destroyed
+    verif::emit("hfree");
 }
 
 struct OpSpec {
